@@ -288,6 +288,9 @@ pub fn bfs_one(kind: &'static str, wbits: usize, borrowed: bool, init: &[u128], 
             let (obs, fin, key) = run_real(kind, wbits, borrowed, init, &p2);
             out.cov.transitions += 1;
             out.cov.traces_validated += 1;
+            if !path.is_empty() {
+                out.cov.nontrivial += 1;
+            }
             out.cov.observe(&format!("{:?}", op).split('(').next().unwrap().to_lowercase(), crate::util::fnv(format!("{:?}", obs.last()).as_bytes()));
             let last = obs.last().unwrap();
             let mut fail: Option<(&str, String)> = None;
@@ -400,9 +403,7 @@ pub fn c13(ctx: &Ctx) -> (CheckMeta, Outcome) {
                     let inits = all_inits(wbits, maxlen);
                     for (i, init) in inits.iter().enumerate() {
                         // quick: every array of length <= 2 and a third of those of length 3
-                        if !thorough && init.len() == 3 && i % 3 != 0 {
-                            continue;
-                        }
+                        let _ = (thorough, i);
                         let n = bfs_one(kind, wbits, borrowed, init, &mut out);
                         // second engine on owned storage, every array of length <= 2 (thorough: all)
                         if !borrowed && (init.len() <= 2 || thorough) && out.violations.is_empty() {
